@@ -33,7 +33,6 @@ func buildSkeletons() []skeleton {
 		{Name: "select", Tmpl: "{C}SELECT {I}* FROM {T}{POST}", Core: true},
 		{Name: "cte", Tmpl: "{C}WITH c AS (SELECT {I}* FROM {T}) SELECT * FROM c{POST}", Core: true},
 		{Name: "cte-shadows-measurement", Tmpl: "{C}WITH cpu AS (SELECT {I}* FROM {T}) SELECT * FROM cpu{POST}", Base: "cte"},
-		{Name: "cte-recursive", Tmpl: "{C}WITH RECURSIVE c AS (SELECT {I}* FROM {T}) SELECT * FROM c{POST}", Base: "cte"},
 		{Name: "subquery-from", Tmpl: "{C}SELECT * FROM (SELECT {I}* FROM {T}) s{POST}", Core: true},
 		{Name: "subquery-where-in", Tmpl: "{C}SELECT {I}* FROM {P} WHERE host IN (SELECT host FROM {T}){POST}", Core: true},
 		{Name: "subquery-where-exists", Tmpl: "{C}SELECT {I}* FROM {P} WHERE EXISTS (SELECT 1 FROM {T}){POST}", Base: "subquery-where-in"},
@@ -54,10 +53,9 @@ func buildSkeletons() []skeleton {
 	}
 	joins := []jk{
 		{"JOIN", " ON true", true}, {"INNER JOIN", " ON true", false}, {"LEFT JOIN", " ON true", false},
-		{"RIGHT JOIN", " ON true", false},
-		{"FULL OUTER JOIN", " ON true", false}, {"CROSS JOIN", "", true},
+				{"FULL OUTER JOIN", " ON true", false}, {"CROSS JOIN", "", true},
 		{"NATURAL JOIN", "", false}, {"SEMI JOIN", " ON true", false},
-		{"ANTI JOIN", " ON true", false}, {"ASOF JOIN", " USING (time)", true},
+		{"ASOF JOIN", " USING (time)", true},
 		{"POSITIONAL JOIN", "", false}, {"JOIN LATERAL", " ON true", true}, {"CROSS JOIN LATERAL", "", false},
 	}
 	for _, j := range joins {
@@ -78,18 +76,16 @@ func buildSkeletons() []skeleton {
 		skeleton{Name: "table-in-cte", Tmpl: "{C}WITH c AS (TABLE {T}) SELECT {I}* FROM c{POST}", Base: "table-stmt"},
 		skeleton{Name: "describe", Base: "table-stmt", Tmpl: "{C}DESCRIBE {T}{POST}", Core: true},
 		skeleton{Name: "show", Tmpl: "{C}SHOW {T}{POST}", Base: "describe"},
-		skeleton{Name: "desc", Tmpl: "{C}DESC {T}{POST}", Base: "describe"},
 		skeleton{Name: "describe-in-subquery", Tmpl: "{C}SELECT {I}* FROM (DESCRIBE {T}) s{POST}", Base: "describe"},
 		skeleton{Name: "pivot-wider", Tmpl: "{C}PIVOT_WIDER {T} ON host USING sum(value){POST}", Base: "pivot"},
 		skeleton{Name: "pivot-in-subquery", Tmpl: "{C}SELECT {I}* FROM {P} a, (PIVOT {T} ON host USING sum(value)) b{POST}", Base: "pivot"},
 		skeleton{Name: "summarize", Base: "table-stmt", Tmpl: "{C}SUMMARIZE {T}{POST}"},
 		skeleton{Name: "pivot", Base: "table-stmt", Tmpl: "{C}PIVOT {T} ON host USING sum(value){POST}", Core: true},
 		skeleton{Name: "unpivot", Base: "pivot", Tmpl: "{C}UNPIVOT {T} ON value INTO NAME n VALUE v{POST}"},
-		skeleton{Name: "explain-analyze", Tmpl: "{C}EXPLAIN ANALYZE SELECT {I}* FROM {T}{POST}"},
 	)
 	// the GET endpoint that assembles its own statement around a caller-supplied WHERE fragment
 	s = append(s,
-		skeleton{Name: "get-where-in", Tmpl: "host IN (SELECT host FROM {T})", Get: true},
+		skeleton{Name: "get-where-in", Tmpl: "host IN (SELECT host FROM {T})", Core: true, Get: true},
 		skeleton{Name: "get-where-exists-table", Tmpl: "EXISTS (TABLE {T})", Core: true, Get: true, Base: "table-stmt"},
 		skeleton{Name: "get-where-comma", Tmpl: "EXISTS (SELECT 1 FROM db1.cpu \"where\", {T})", Get: true, Base: "get-where-in"},
 	)
@@ -260,10 +256,11 @@ func buildFillers(catalog []string) []filler {
 			if pv.name != "glob" && qs.k != "sq" && qs.k != "dq" && qs.k != "dollar" && qs.k != "estr" {
 				continue
 			}
-			base := "path:" + qs.k + ":glob"
-			if pv.name == "glob" {
+			// simpler quote style of the same path first, then the canonical glob
+			base := "path:sq:" + pv.name
+			if qs.k == "sq" {
 				base = "path:sq:glob"
-				if qs.k == "sq" {
+				if pv.name == "glob" {
 					base = ""
 				}
 			}
